@@ -37,6 +37,9 @@ type c02Plan struct {
 	// over together with io.EOF (one Read returns n > 0 and the error). The packages are all there; the errors
 	// that follow them are the transport's.
 	EOFAtEnd bool `json:"eof_at_end,omitempty"`
+	// ZeroNil: offsets of the server's byte stream at which one Read returns (0, nil) - "nothing happened" - before
+	// the stream goes on.
+	ZeroNil []int `json:"zero_nil,omitempty"`
 	// TinyPackets > 0: the response is cut into packets of that many body bytes throughout (its cut set is not
 	// written out); with the 2600-byte text value of row/text/big that is one package in well over 2048 packets.
 	TinyPackets int `json:"tiny_packets,omitempty"`
@@ -327,6 +330,16 @@ func (c02) Gen(r *Rand, idx int, tier string) interface{} {
 	if len(p.Slow) == 0 && r.Pct(8) {
 		p.EOFAtEnd = true
 	}
+	if r.Pct(6) {
+		total := 0
+		for _, x := range c02Packets(body, p) {
+			total += len(x)
+		}
+		for k := 1 + r.Intn(3); k > 0 && total > 1; k-- {
+			p.ZeroNil = append(p.ZeroNil, r.Intn(total))
+		}
+		sort.Ints(p.ZeroNil)
+	}
 	return p
 }
 
@@ -450,7 +463,7 @@ func (c02) Run(plan interface{}, schedSeed uint64, replay []simrt.Choice, lenien
 	}
 	got := runResp(cfg,
 		c02Delivery(body, p),
-		respClient{QueueSize: p.QueueSize, ReadTimeoutS: readTimeout, DebugLog: p.DebugLog, ReadSizes: p.ReadSizes, Twin: p.Twin, Logical: p.Logical})
+		respClient{QueueSize: p.QueueSize, ReadTimeoutS: readTimeout, DebugLog: p.DebugLog, ReadSizes: p.ReadSizes, Twin: p.Twin, Logical: p.Logical, ZeroNil: p.ZeroNil})
 	out := got.Out
 	StdOutcome(v, base.Out)
 	StdOutcome(v, out)
@@ -522,6 +535,9 @@ func (c02) Run(plan interface{}, schedSeed uint64, replay []simrt.Choice, lenien
 	}
 	if p.TinyPackets > 0 {
 		v.Probe("one-package-in-more-than-2048-packets")
+	}
+	if out.FaultFired["read-returns-zero-nil"] > 0 {
+		v.Probe("a-read-returned-zero-nil")
 	}
 	if len(herr) > len(werr) && !p.EOFAtEnd {
 		sig := "error"
